@@ -577,17 +577,19 @@ def single_preemption(body_a, body_b, pause_index, suffixes, hot_only=False, pau
         except BaseException as e:  # noqa: BLE001
             return ("exc", common.classify_exc(e), common.exc_site(e), str(e)[:300])
 
-    fired = [False]
+    fired, seen_line = [False], [0]
 
     def local(frame, event, arg):
         if event == "line":
             count[0] += 1
             if pause_line is not None:
-                # stop before the first execution of one particular source line
-                if not fired[0] and frame.f_lineno == pause_line[1] and frame.f_code.co_filename.endswith(pause_line[0]) and not lock_owned():
-                    fired[0] = True
-                    paused.set()
-                    a_done.wait(60.0)
+                # stop before the n-th execution of one particular source line
+                if not fired[0] and frame.f_lineno == pause_line[1] and frame.f_code.co_filename.endswith(pause_line[0]):
+                    seen_line[0] += 1
+                    if seen_line[0] >= (pause_line[2] if len(pause_line) > 2 else 1) and not lock_owned():
+                        fired[0] = True
+                        paused.set()
+                        a_done.wait(60.0)
             elif count[0] == pause_index and not lock_owned():
                 paused.set()
                 a_done.wait(60.0)
@@ -766,18 +768,18 @@ def _preempt_case(item):
     return n, out
 
 
-def distinct_lines_of_first_time_call():
+def distinct_lines_of_first_time_call(all_occurrences=False):
     """every (file, line) of einx that a first-time einx.sum call executes, in order of first execution"""
     import einx
     src = common.REPO.rstrip("/") + "/einx/"
-    seen, order = set(), []
+    seen, order = {}, []
 
     def local(frame, event, arg):
         if event == "line":
             key = (frame.f_code.co_filename[len(src):], frame.f_lineno)
             if key not in seen:
-                seen.add(key)
                 order.append(key)
+            seen[key] = seen.get(key, 0) + 1
         return local
 
     def glob(frame, event, arg):
@@ -788,7 +790,13 @@ def distinct_lines_of_first_time_call():
         einx.sum("a b -> b", np.arange(77 * 2).reshape(77, 2))
     finally:
         sys.settrace(None)
-    return [list(x) for x in order]
+    # before the first execution of every line, and before the last one of every line that runs several times (the outermost
+    # frame of a function used at several levels - such as a cache wrapper - is the one that finishes last)
+    out = [[f, l, 1] for f, l in order]
+    out += [[f, l, seen[(f, l)]] for f, l in order if seen[(f, l)] > 1]
+    if all_occurrences:
+        out += [[f, l, k] for f, l in order for k in range(2, min(seen[(f, l)], 12))]
+    return out
 
 
 def run_preemption_mode(ctx):
@@ -814,9 +822,7 @@ def run_preemption_mode(ctx):
             k += 1
         stats["preemption_points_" + kind] = len(pts)
         stats["line_events_" + kind] = total
-    every = distinct_lines_of_first_time_call()
-    if not quick:
-        every = every + every                                   # thorough: every line twice (other shapes, other worker state)
+    every = distinct_lines_of_first_time_call(all_occurrences=not quick)
     stats["preemption_points_first_time_calls_every_line"] = len(every)
     for fl in every:
         items.append(("first_time_calls_every_line", k, fl))
